@@ -4,6 +4,7 @@ import (
 	"encoding/json"
 	"flag"
 	"fmt"
+	"go/token"
 	"sort"
 	"strings"
 	"sync"
@@ -46,26 +47,39 @@ func (w *Worker) resetAnalyzer() {
 	w.restoreParams()
 }
 
-func (w *Worker) makePass(cp *CorpusPkg, sink *[]analysis.Diagnostic) *analysis.Pass {
+// passPkg resolves a pass target: "name" is the corpus package, "ref:name" the
+// independently loaded second copy of the same package (own file set, own
+// syntax trees, own types) - two passes over the two copies execute the same
+// checkers over identical code without sharing any input, which is exactly the
+// situation of a driver analysing two similar packages in parallel.
+func (w *Worker) passPkg(name string) (*Corpus, *CorpusPkg, string) {
+	if strings.HasPrefix(name, "ref:") {
+		c := w.refCorpus()
+		return c, c.Pkgs[strings.TrimPrefix(name, "ref:")], strings.TrimPrefix(name, "ref:")
+	}
+	return w.corpus, w.corpus.Pkgs[name], name
+}
+
+func (w *Worker) makePass(c *Corpus, cp *CorpusPkg, sink *[]analysis.Diagnostic) *analysis.Pass {
 	return &analysis.Pass{
 		Analyzer:   analyzer.Analyzer,
-		Fset:       w.corpus.Fset,
+		Fset:       c.Fset,
 		Files:      cp.Files,
 		Pkg:        cp.Pkg.Types,
 		TypesInfo:  cp.Pkg.TypesInfo,
-		TypesSizes: w.corpus.Sizes,
+		TypesSizes: c.Sizes,
 		Report:     func(d analysis.Diagnostic) { *sink = append(*sink, d) },
 		ResultOf:   map[*analysis.Analyzer]interface{}{},
 	}
 }
 
-func (w *Worker) diagFromAnalysis(pkg string, d analysis.Diagnostic) Diag {
-	pos := w.corpus.Fset.Position(d.Pos)
+func (w *Worker) diagFromAnalysis(fset *token.FileSet, pkg string, d analysis.Diagnostic) Diag {
+	pos := fset.Position(d.Pos)
 	name, text, _ := strings.Cut(d.Message, ": ")
 	out := Diag{Pkg: pkg, File: baseName(pos.Filename), Line: pos.Line, Col: pos.Column, Checker: name, Text: text}
 	if len(d.SuggestedFixes) > 0 && len(d.SuggestedFixes[0].TextEdits) > 0 {
 		e := d.SuggestedFixes[0].TextEdits[0]
-		f, t := w.corpus.Fset.Position(e.Pos), w.corpus.Fset.Position(e.End)
+		f, t := fset.Position(e.Pos), fset.Position(e.End)
 		out.HasFix = true
 		out.FixFrom = fmt.Sprintf("%d:%d", f.Line, f.Column)
 		out.FixTo = fmt.Sprintf("%d:%d", t.Line, t.Column)
@@ -123,7 +137,8 @@ func (w *Worker) execAnalyzer(ex *anaExtra, pkgs []string, v *simapi.Variant) *A
 			}
 			po.Return = simrt.Steps()
 		}()
-		pass := w.makePass(w.corpus.Pkgs[pkgs[i]], &sinks[i])
+		c, cp, _ := w.passPkg(pkgs[i])
+		pass := w.makePass(c, cp, &sinks[i])
 		_, err := analyzer.Analyzer.Run(pass)
 		if err != nil {
 			po.Err = err.Error()
@@ -165,8 +180,9 @@ func (w *Worker) execAnalyzer(ex *anaExtra, pkgs []string, v *simapi.Variant) *A
 		out.RaceTxt = w.readNewRaceLog()
 	}
 	for i := range out.Passes {
+		c, _, plain := w.passPkg(pkgs[i])
 		for _, d := range sinks[i] {
-			out.Passes[i].Diags = append(out.Passes[i].Diags, w.diagFromAnalysis(pkgs[i], d))
+			out.Passes[i].Diags = append(out.Passes[i].Diags, w.diagFromAnalysis(c.Fset, plain, d))
 		}
 	}
 	out.Log = append([]logRecord(nil), w.sink.records...)
@@ -191,21 +207,42 @@ func (w *Worker) genC04Analyzer(rc *simapi.RunConfig) {
 	rc.Kind = "analyzer-sched"
 	ks := []int{2, 3, 5}
 	k := ks[r.Intn(len(ks))]
-	pkgs := w.pickPkgs(r, rc.Index/5, k)
+	var pkgs []string
+	twins := r.Intn(3) != 0
+	if twins {
+		// the package and its independently loaded twin (plus more pairs): the
+		// same checkers run over identical code in parallel passes
+		base := w.pickPkgs(r, rc.Index/3, (k+1)/2)
+		for _, p := range base {
+			pkgs = append(pkgs, p, "ref:"+p)
+		}
+		pkgs = pkgs[:k]
+		if k == 3 {
+			pkgs = []string{base[0], "ref:" + base[0], base[1]}
+		}
+	} else {
+		pkgs = w.pickPkgs(r, rc.Index/3, k)
+	}
 	for _, p := range pkgs {
-		rc.Visits = append(rc.Visits, simapi.Visit{Pkg: p, Files: w.index.AllFiles(p)})
+		rc.Visits = append(rc.Visits, simapi.Visit{Pkg: p, Files: w.index.AllFiles(strings.TrimPrefix(p, "ref:"))})
 	}
 	ex := anaExtra{Flags: map[string]string{}, Parallel: true}
 	hw := w.handWritten()
 	sel := map[string]bool{}
 	for _, p := range pkgs {
+		p = strings.TrimPrefix(p, "ref:")
 		for _, h := range hw {
 			if h == p {
 				sel[p] = true
 			}
 		}
 	}
-	extra := []int{3, 10, 30, len(hw)}[r.Intn(4)]
+	extra := []int{3, 10, len(hw), len(hw)}[r.Intn(4)]
+	if extra == len(hw) {
+		for _, h := range hw {
+			sel[h] = true
+		}
+	}
 	for i := 0; i < extra; i++ {
 		sel[hw[r.Intn(len(hw))]] = true
 	}
@@ -215,6 +252,11 @@ func (w *Worker) genC04Analyzer(rc *simapi.RunConfig) {
 		names = append(names, s)
 	}
 	sort.Strings(names)
+	if r.Intn(3) == 0 {
+		names = append(names, "ruleguard")
+		sort.Strings(names)
+		ex.Flags["@ruleguard.rules"] = rulesGlob()
+	}
 	ex.Flags["enable"] = strings.Join(names, ",")
 	ex.Flags["disable"] = ""
 	if r.Intn(3) == 0 {
@@ -522,6 +564,12 @@ func (w *Worker) anaSelection(r *simrt.Rand, pkgs []string, n int) string {
 	return strings.Join(names, ",")
 }
 
+// withUserRules adds the dynamic-rules checker and its rule files to analyzer flags.
+func withUserRules(flags map[string]string) {
+	flags["enable"] += ",ruleguard"
+	flags["@ruleguard.rules"] = rulesGlob()
+}
+
 // genC02Analyzer: the same passes under different map orders / schedules must
 // report byte-identical diagnostics in the same order.
 func (w *Worker) genC02Analyzer(rc *simapi.RunConfig) {
@@ -533,6 +581,9 @@ func (w *Worker) genC02Analyzer(rc *simapi.RunConfig) {
 		rc.Visits = append(rc.Visits, simapi.Visit{Pkg: p, Files: w.index.AllFiles(p)})
 	}
 	ex := anaExtra{Flags: map[string]string{"enable": w.anaSelection(r, pkgs, []int{5, 20, 70}[r.Intn(3)]), "disable": ""}, Parallel: true, Order: r.Perm(k)}
+	if r.Intn(2) == 0 {
+		withUserRules(ex.Flags)
+	}
 	rc.Extra, _ = json.Marshal(ex)
 	sr := simrt.NewRand(rc.RunSeed, "sched")
 	rc.Variants = []simapi.Variant{serialVariant(),
@@ -651,6 +702,9 @@ func (w *Worker) genC03Analyzer(rc *simapi.RunConfig) {
 	if r.Intn(3) == 0 {
 		ex.Flags["@hugeParam.sizeThreshold"] = fmt.Sprint([]int{1, 40, 256}[r.Intn(3)])
 	}
+	if r.Intn(2) == 0 {
+		withUserRules(ex.Flags)
+	}
 	rc.Extra, _ = json.Marshal(ex)
 	rc.Variants = []simapi.Variant{{MapPolicy: simrt.MapCanonical}}
 }
@@ -668,6 +722,9 @@ func (w *Worker) runC03Analyzer(rc *simapi.RunConfig) *simapi.RunResult {
 		n := 0
 		fmt.Sscan(v, &n)
 		wl.Params["hugeParam"] = map[string]any{"sizeThreshold": n}
+	}
+	if v, ok := ex.Flags["@ruleguard.rules"]; ok {
+		wl.Params["ruleguard"] = map[string]any{"rules": v}
 	}
 	ref, panics := w.refForVisits(wl, rc.Visits)
 	if len(panics) > 0 {
